@@ -320,11 +320,14 @@ func runC18(c any, x *kit.Ctx) {
 		x.Fail("c18:create-no-output:"+tag, "car create wrote no archive: %v", err)
 		return
 	}
-	// packing must leave the source as it was
+	// Whether packing/extracting leaves the source as it was is not part of the property statement
+	// (the extracted tree is compared with the tree the model describes, i.e. the source as packed):
+	// a change of the source is recorded, not judged.
 	checkSource := func(when string) {
 		got, errs := drv.SnapshotStrict(src)
 		if d := drv.DiffSnapshots(srcModel, got); len(d) > 0 || len(errs) > 0 {
-			x.Fail("c18:source-mutated:"+tag, "the source tree changed during %s: %v %v", when, clipList(d), clipList(errs))
+			x.Outcome("beyond-statement:source-mutated:" + strings.ReplaceAll(when, " ", "-"))
+			x.Note("c18 source changed during "+when, fmt.Sprintf("%v %v", clipList(d), clipList(errs)))
 		}
 	}
 	checkSource("car create")
@@ -334,12 +337,14 @@ func runC18(c any, x *kit.Ctx) {
 		x.Fail("c18:archive-malformed:"+tag, "created archive is not well-formed: %v", err)
 		return
 	}
-	wantVersion := cs.Version
-	if wantVersion == 0 {
-		wantVersion = 2 // `car create --help`: --version value ... (default: 2)
-	}
-	if fl.Version != wantVersion {
-		x.Fail("c18:archive-version:"+tag, "created archive has version %d, want %d", fl.Version, wantVersion)
+	// The format is asserted when it was requested; which format the tool picks when --version is
+	// omitted is help-text documentation, not part of the property statement: recorded only.
+	if cs.Version != 0 {
+		if fl.Version != cs.Version {
+			x.Fail("c18:archive-version:"+tag, "created archive has version %d, want %d", fl.Version, cs.Version)
+		}
+	} else {
+		x.Outcome(fmt.Sprintf("beyond-statement:default-version=%d", fl.Version))
 	}
 	if len(fl.Payload.Header.Roots) != 1 {
 		x.Fail("c18:roots:"+tag, "created archive has %d roots", len(fl.Payload.Header.Roots))
@@ -348,7 +353,17 @@ func runC18(c any, x *kit.Ctx) {
 	root := fl.Payload.Header.Roots[0]
 	rr, hung := drv.CarRun{Dir: work, Args: []string{"root", "out.car"}, Timeout: c18Timeout}.Run()
 	rc, cerr := cid.Cast(root)
-	if hung || rr.Exit != 0 || cerr != nil || strings.TrimSpace(string(rr.Stdout)) != rc.String() {
+	// the printed CID is compared as a CID (first token of the output, any multibase spelling), not as text
+	printedOK := false
+	if toks := strings.Fields(string(rr.Stdout)); len(toks) > 0 && cerr == nil {
+		if pc, derr := cid.Decode(toks[0]); derr == nil && pc.Equals(rc) {
+			printedOK = true
+			if toks[0] != rc.String() || len(toks) > 1 {
+				x.Outcome("beyond-statement:car-root-output-not-canonical-text")
+			}
+		}
+	}
+	if hung || rr.Exit != 0 || cerr != nil || !printedOK {
 		x.Fail("c18:car-root:"+tag, "car root prints %q (exit %d), header root is %v", strings.TrimSpace(string(rr.Stdout)), rr.Exit, rc)
 	}
 	if cerr != nil {
@@ -404,7 +419,8 @@ func runC18(c any, x *kit.Ctx) {
 		return
 	}
 	checkSource("car extract")
-	// nothing but the archive and the output directory may appear next to the source
+	// whether anything but the archive and the output directory appears next to the source is not
+	// part of the property statement: recorded, not judged
 	if ents, err := os.ReadDir(work); err == nil {
 		var stray []string
 		for _, e := range ents {
@@ -413,7 +429,8 @@ func runC18(c any, x *kit.Ctx) {
 			}
 		}
 		if len(stray) > 0 {
-			x.Fail("c18:stray-output:"+tag, "create/extract left unexpected entries next to the source: %q", clipList(stray))
+			x.Outcome("beyond-statement:stray-output")
+			x.Note("c18 entries left next to the source", fmt.Sprintf("%q", clipList(stray)))
 		}
 	}
 	got, gerrs := drv.SnapshotStrict(out)
@@ -442,10 +459,8 @@ func runC18(c any, x *kit.Ctx) {
 			x.Outcome("nowrap-non-directory-root")
 			return
 		}
-		if er.Exit != 0 {
-			x.Fail("c18:extract-failed:"+tag, "car extract of a bare multi-chunk file failed (exit %d): %s", er.Exit, clipS(string(er.Stderr), 600))
-			return
-		}
+		// Like the raw root, it is not a directory tree: a tool that declines to extract it (nothing
+		// written) is recorded, not judged. Whatever IS written must be the source's content.
 		want := drv.FileDigest(c18Content(cs.Kids[0]))
 		var names []string
 		for k := range got {
@@ -453,20 +468,34 @@ func runC18(c any, x *kit.Ctx) {
 				names = append(names, k)
 			}
 		}
+		if len(names) == 0 {
+			x.Outcome("beyond-statement:nowrap-bare-file-not-extracted")
+			return
+		}
 		if len(names) != 1 || got[names[0]] != want {
-			x.Fail("c18:bare-file-differs:"+tag, "a bare file packed with --no-wrap extracts to %v, want exactly one file with %s", clipMap(got), want)
+			x.Fail("c18:bare-file-differs:"+tag, "a bare file packed with --no-wrap extracts to %v (exit %d), want exactly one file with %s", clipMap(got), er.Exit, want)
+			return
+		}
+		if er.Exit != 0 {
+			x.Outcome("beyond-statement:nowrap-bare-file-extract-exit-nonzero")
 		}
 		x.State(fmt.Sprintf("%+v", cs))
 		x.Outcome("nowrap-bare-file-content")
 		return
 	}
 	if er.Exit != 0 {
-		// "no files extracted" (exit 1) is legitimate only for a tree without files and symlinks
-		if !(er.Exit == 1 && strings.Contains(string(er.Stderr), "no files extracted") && files == 0) {
+		// A failure report is legitimate only for a tree without files and symlinks ("no files
+		// extracted"); the exit code and the wording of that report are not part of the property
+		// statement. The tree comparison below decides (the directories must still be there).
+		// A process that did not exit by itself (killed, not started) is never legitimate.
+		if files != 0 || er.Exit < 0 {
 			x.Fail("c18:extract-failed:"+tag, "car extract failed (exit %d) on a tree with %d files/symlinks: %s", er.Exit, files, clipS(string(er.Stderr), 600))
 			return
 		}
 		x.Outcome("no-files-extracted")
+		if !(er.Exit == 1 && strings.Contains(string(er.Stderr), "no files extracted")) {
+			x.Outcome(fmt.Sprintf("beyond-statement:no-files-report-exit=%d", er.Exit))
+		}
 	}
 	// expected content of the whole output directory (documented mapping)
 	want := map[string]string{".": "dir"}
@@ -766,8 +795,9 @@ func init() {
 			"odd names {.h, 255-byte ASCII, 255-byte multibyte, a\\b, -x, n<newline>l} at depth 1-3 as file/directory/symlink (also as single and separate sources) and all side by side; " +
 			"reduced matrix over 5 representative trees (empty source, single empty directory, single directory, mixed tree, chain): stdin redirected from a regular file, extraction into the cwd without an output argument x {file, pipe, redirected file}, --version omitted, source spelled src/ ./src absolute (also for separate sources); " +
 			"HAMT-sharded directories (witnessed by a shard node in the archive): quick 1000 siblings with 230-byte names under 4 mode/nesting combinations; thorough 6000 short-named and 1000 long-named siblings x all 8 modes x {source directory, nested directory}, a 1200-entry unsharded directory, a 176-chunk file (file DAG of depth 3, also as bare --no-wrap file), all 4-wide top levels; " +
-			"packed and extracted by the REAL car binary (each invocation under a 10 min hang guard); oracle: the whole output directory equals the tree the model describes (names, contents, link targets, empty directories; nothing else in it) under the documented mapping, extract exits 0 or 1 with 'no files extracted' only for a tree without files/symlinks, " +
-			"a bare multi-chunk file packed --no-wrap extracts to exactly one file with the source's content, the source is unchanged and nothing else appears next to it, archive well-formed with the requested version and exactly one root equal to `car root` and stored; non-trivial = tree with >= 2 entries",
+			"packed and extracted by the REAL car binary (each invocation under a 10 min hang guard); oracle: the whole output directory equals the tree the model describes (names, contents, link targets, empty directories; nothing else in it) under the documented mapping, extract exits 0, or non-zero (any code, any wording) only for a tree without files/symlinks, " +
+			"a bare multi-chunk file packed --no-wrap, when extracted at all, extracts to exactly one file with the source's content, archive well-formed, of the version requested with --version, with exactly one root that is stored and equal (as a CID) to the first token `car root` prints; " +
+			"recorded as beyond-statement outcomes, not judged: a changed source, entries left next to the source, the version chosen when --version is omitted, exit code/wording of the empty-tree report, a bare file that is not extracted; non-trivial = tree with >= 2 entries",
 		Bound: func(tier string) map[string]any {
 			b := map[string]any{"entries": 2, "names": 4, "kinds": 6, "odd_names": 6, "file_sizes": 12, "max_file_bytes": 3*c18Chunk + 5, "shard_siblings": c18ShardLong, "shard_modes": 4, "cli_variant_trees": 5}
 			if tier == "thorough" {
@@ -780,10 +810,13 @@ func init() {
 		},
 		Assumptions: []string{
 			"permissions, ownership and timestamps are not compared (the property states names, contents and link targets)",
-			"a bare symlink or single-block file (raw root) packed with --no-wrap has no name to extract to and is not compared; a bare multi-chunk file is compared by content only (the name car extract gives it is not asserted)",
+			"a bare symlink or single-block file (raw root) packed with --no-wrap has no name to extract to and is not compared; a bare multi-chunk file is compared by content only when car extract writes it (the name it gets is not asserted; declining to extract it is recorded as an outcome)",
 			"the output directory exists before car extract runs and the archive path does not exist before car create runs",
 			"source paths are spelled so that their base name is the entry's name (src, src/, ./src, absolute); '.', '..' and non-UTF-8 names are not enumerated",
 			"the number in car extract's 'extracted N file(s)' message is not asserted (not part of the property statement)",
+			"exit codes and message texts are not asserted beyond: create exits 0, car root exits 0, extract exits 0 for a tree with files or symlinks",
+			"--version omitted: the version of the archive is recorded, not asserted (the statement quantifies over --version {1,2})",
+			"side effects outside the output directory (source tree, entries next to it) are recorded as beyond-statement outcomes",
 		},
 	})
 }
